@@ -141,8 +141,7 @@ type wireAuth struct {
 	picks  []int64
 }
 
-// methodOfBit: the bit values of the protocol description (condor_auth.h); own tells SCITOKENS
-// from IDTOKENS (they share a bit) by what the endpoints listed.
+// methodOfBit: the bit values of the protocol description (condor_auth.h).
 func methodOfBit(b int64, listed []string) string {
 	switch b {
 	case 2:
@@ -158,16 +157,29 @@ func methodOfBit(b int64, listed []string) string {
 	case 512:
 		return "PASSWORD"
 	case 2048:
-		return "TOKEN"
+		return "TOKEN" // also spelled IDTOKENS: same bit, same exchange (see canonMethod)
 	case 4096:
-		for _, m := range listed {
-			if m == "IDTOKENS" {
-				return "IDTOKENS"
-			}
-		}
 		return "SCITOKENS"
 	}
 	return "?"
+}
+
+// canonMethod: TOKEN and IDTOKENS are two spellings of one method (one bit, one exchange); the wire
+// cannot tell them apart, so reported names are compared up to this spelling.
+func canonMethod(m string) string {
+	if m == "IDTOKENS" {
+		return "TOKEN"
+	}
+	return m
+}
+
+func containsCanon(l []string, m string) bool {
+	for _, x := range l {
+		if canonMethod(x) == canonMethod(m) {
+			return true
+		}
+	}
+	return false
 }
 
 // exchange shapes (message directions after the server's pick; c = client speaks)
